@@ -208,6 +208,9 @@ pub struct C12 {
 }
 
 fn draw_len(r: &mut Rng) -> usize {
+    if crate::data::small() {
+        return draw_small_len(r);
+    }
     match r.below(100) {
         0..=79 => draw_small_len(r),
         80..=84 => *r.pick(&[MIB - 1, MIB, MIB + 1, MIB - 4, MIB + 4, MIB + 5, 2 * MIB, 2 * MIB + 1, 2 * MIB - 1]),
